@@ -121,9 +121,35 @@ class _Stats:
                     exhaustive_cells=self.exhaustive_cells, failure=self.failure)
 
 
+class CaseTimeout(BaseException):
+    """Raised by the watchdog inside a case (BaseException: not swallowed by `except Exception`)."""
+
+
+def _on_alarm(signum, frame):
+    raise CaseTimeout()
+
+
 def _run_one(mod, case, known):
-    """Run a case; classify failures against the known-findings list."""
-    out = mod.run_case(case)
+    """Run a case; classify failures against the known-findings list.
+
+    Watchdog: a case that does not finish within CASE_TIMEOUT seconds (default 150; typical cases
+    take milliseconds to a few seconds) is reported as non-termination of the code under test.
+    """
+    import signal
+    limit = int(getattr(mod, 'CASE_TIMEOUT', 150))
+    old = signal.signal(signal.SIGALRM, _on_alarm)
+    signal.alarm(limit)
+    try:
+        out = mod.run_case(case)
+    except CaseTimeout:
+        out = Outcome(False, f'case did not terminate within {limit} s (watchdog): '
+                      f'{json.dumps(case, default=str)[:1500]}')
+        hook = getattr(mod, 'classify_timeout', None)
+        if hook is not None:
+            out.known = hook(case)
+    finally:
+        signal.alarm(0)
+        signal.signal(signal.SIGALRM, old)
     if not out.ok and out.known and out.known not in known:
         out.known = None  # only findings listed in known_findings.json suppress anything
     return out
@@ -131,6 +157,9 @@ def _run_one(mod, case, known):
 
 def _shard_worker(args):
     pid, tier, seed, shard, nshards, examples, no_shrink = args
+    if os.environ.get('VERIF_FAULT_TIMEOUT'):
+        import faulthandler
+        faulthandler.dump_traceback_later(int(os.environ['VERIF_FAULT_TIMEOUT']), exit=True)
     try:
         return _shard(pid, tier, seed, shard, nshards, examples, no_shrink)
     except BaseException:
@@ -272,7 +301,7 @@ def main(argv=None):
                 continue
             reported = False
             for w in e.get('witnesses', []):
-                out = mod.run_case(w)
+                out = _run_one(mod, w, known | {e['id']})
                 if e['status'] == 'known':
                     if not out.ok:
                         if out.known == e['id']:
